@@ -147,6 +147,40 @@ def run(tier, seed, rng):
                 failures.append(dict(kind='oracle', sig='strict-end', what=f"the parse ended at {o['end']} beyond the input ({len(r['raw'])} bytes)",
                                      classes=pktprops.class_source(allg, r['group']), cls=decl.cname(r['c']), raw=r['raw'].hex(),
                                      offset=r['offset'], observed=o))
+    # ---- until-sequences with an element alignment > 1 as the LAST field: every truncation of a valid encoding (cuts at the end
+    # of an element whose end is not aligned included: only padding would follow) lacks the terminating element and must fail
+    asrc, acases, ameta = "class AItem(Packet):\n    kind = Int(1)\n    value = Int(2)\n", [], []
+    ai = 0
+    for elem, ew in (('Int(1)', 1), ('Int(3)', 3), ('Ref(AItem)', 3), ('Data(5)', 5)):
+        for al in (2, 4, 8):
+            for where in ('seq', 'cls'):
+                for gen_ in (True, False):
+                    for stop in ('value', 'len'):
+                        nm = f"AU{ai}"; ai += 1
+                        conf = {}
+                        if where == 'cls': conf['align'] = al
+                        if not gen_: conf.update(generate_for_pack=False, generate_for_unpack=False)
+                        last = {'Int(1)': "pkt.xs[-1] == 0", 'Int(3)': "pkt.xs[-1] == 0", 'Ref(AItem)': "pkt.xs[-1].kind == 0", 'Data(5)': "pkt.xs[-1] == b'\\0' * 5"}[elem]
+                        cond = f"lambda pkt, **k: {last}" if stop == 'value' else "lambda pkt, **k: len(pkt.xs) >= 3"
+                        asrc += (f"class {nm}(Packet):\n" + (f"    __bisturi__ = {conf!r}\n" if conf else "") + "    h = Int(1)\n"
+                                 + f"    xs = {elem}.repeated(until={cond}{', aligned=%d' % al if where == 'seq' else ''})\n")
+                        # a valid encoding: h, then 3 elements each at the next multiple of al (from the start of the input), the last one zero
+                        raw = b'\x09'
+                        for e in range(3):
+                            raw += b'.' * ((-len(raw)) % al)
+                            raw += (bytes([e + 1]) * ew if e < 2 else b'\x00' * ew)
+                        for cut in range(len(raw) + 1):
+                            acases.append(dict(cls=nm, op='unpack_end', raw=raw[:cut].hex(), offset=0)); ameta.append((nm, raw, cut))
+    ares = run_impl(os.path.join(VERIF, 'harness', 'impl_pkt.py'), dict(header=decl.HEADER_PY, blocks=[dict(name='aluntil', src=asrc)], modname='c04a', cases=acases))
+    dist["aligned_until_truncations"] = len(acases)
+    for (nm, raw, cut), o in zip(ameta, ares['outcomes']):
+        if cut == len(raw):
+            if 'ok' not in o or o.get('end') != len(raw):
+                failures.append(dict(kind='oracle', sig='aligned-until-valid', what='a valid encoding of an aligned until-sequence does not parse to its end',
+                                     classes=asrc.split('class AU')[0] + 'class ' + [c for c in asrc.split('class ') if c.startswith(nm + '(')][0], cls=nm, raw=raw.hex(), offset=0, observed=o))
+        elif o.get('err') != 'unpacking':
+            failures.append(dict(kind='oracle', sig='strict-aligned-until', what=f"a valid encoding of {len(raw)} bytes cut at {cut}: the terminating element of the until-sequence is not (entirely) there, the parse must fail with a PacketError",
+                                 classes=asrc.split('class AU')[0] + 'class ' + [c for c in asrc.split('class ') if c.startswith(nm + '(')][0], cls=nm, raw=raw[:cut].hex(), offset=0, observed=o))
     # ---- a computed size below zero is not "as many bytes as the declaration requires": the parse must fail (if it went on, the
     # cursor would move backwards and later fields would be decoded from bytes already consumed)
     nsrc = ("class NF(Packet):\n    n = Int(1, signed=True)\n    d = Data(n)\n    t = Int(2)\n"
